@@ -219,7 +219,81 @@ theorem floatConfig_lossy_formatter_changes_default {F : Type} (parseF : String 
   unfold floatConfig floatRequired
   simp [h, hb]
 
-/-! ### Atoi ∘ Itoa on the boundary values (kernel-evaluated) -/
+/-! ### Atoi ∘ Itoa -/
+
+theorem digitVal_of_isDigit (c : Char) (h : c.isDigit = true) : digitVal c = some (c.toNat - '0'.toNat) := by
+  unfold digitVal
+  have : '0' ≤ c ∧ c ≤ '9' := by
+    simp only [Char.isDigit, Bool.and_eq_true, decide_eq_true_eq] at h
+    constructor
+    · exact Char.le_def.2 (by simpa using h.1)
+    · exact Char.le_def.2 (by simpa using h.2)
+  simp [this]
+
+theorem foldlM_digits (cs : List Char) (h : ∀ c ∈ cs, c.isDigit = true) (init : Nat) :
+    cs.foldlM (fun acc c => (digitVal c).map (fun d => acc * 10 + d)) init = some (Nat.ofDigitChars 10 cs init) := by
+  induction cs generalizing init with
+  | nil => simp
+  | cons c cs ih =>
+    simp only [List.foldlM_cons, digitVal_of_isDigit c (h c (List.mem_cons_self ..)), Option.map_some, Option.bind_eq_bind, Option.bind_some]
+    rw [ih (fun d hd => h d (List.mem_cons_of_mem _ hd)), Nat.ofDigitChars_cons, Nat.mul_comm]
+
+theorem digitsVal_toDigits (n : Nat) : digitsVal (Nat.toDigits 10 n) = some n := by
+  have hne : Nat.toDigits 10 n ≠ [] := Nat.toDigits_ne_nil
+  have hd : ∀ c ∈ Nat.toDigits 10 n, c.isDigit = true := fun c hc => Nat.isDigit_of_mem_toDigits (by decide) (by decide) hc
+  unfold digitsVal
+  cases hcs : Nat.toDigits 10 n with
+  | nil => exact absurd hcs hne
+  | cons c cs =>
+    rw [hcs] at hd
+    simp only []
+    rw [foldlM_digits (c :: cs) hd 0, ← hcs, Nat.ofDigitChars_ten_toDigits]
+
+theorem head_isDigit (n : Nat) : ∃ c cs, Nat.toDigits 10 n = c :: cs ∧ c.isDigit = true := by
+  cases hcs : Nat.toDigits 10 n with
+  | nil => exact absurd hcs Nat.toDigits_ne_nil
+  | cons c cs => exact ⟨c, cs, rfl, Nat.isDigit_of_mem_toDigits (b := 10) (n := n) (by decide) (by decide) (by rw [hcs]; exact List.mem_cons_self ..)⟩
+
+theorem splitSign_digit (c : Char) (cs : List Char) (hd : c.isDigit = true) : splitSign (c :: cs) = (false, c :: cs) := by
+  have hm : c ≠ '-' := by intro e; subst e; simp [Char.isDigit] at hd
+  have hp : c ≠ '+' := by intro e; subst e; simp [Char.isDigit] at hd
+  unfold splitSign
+  split
+  · rename_i r heq; simp at heq; exact absurd heq.1 hm
+  · rename_i r heq; simp at heq; exact absurd heq.1 hp
+  · rfl
+
+theorem atoiC_nonneg (n : Nat) (h : (n : Int) ≤ 2^63 - 1) : atoiC (Nat.toDigits 10 n) = some (n : Int) := by
+  obtain ⟨c, cs, hcs, hd⟩ := head_isDigit n
+  unfold atoiC
+  rw [hcs, splitSign_digit c cs hd, ← hcs, digitsVal_toDigits]
+  simp; omega
+
+theorem atoiC_neg (m : Nat) (h : -(2^63 : Int) ≤ -(m : Int)) : atoiC ('-' :: Nat.toDigits 10 m) = some (-(m : Int)) := by
+  unfold atoiC
+  simp only [splitSign, digitsVal_toDigits, if_true]
+  simp; omega
+
+/-- `strconv.Atoi (strconv.Itoa n) = n` for every int64 `n` (the model's re-implementations) -/
+theorem atoi_itoa (n : Int) (h1 : -(2^63) ≤ n) (h2 : n ≤ 2^63 - 1) : atoi (itoa n) = some n := by
+  unfold atoi itoa
+  rw [Int.toString_eq_repr, Int.repr_eq_if]
+  by_cases hn : 0 ≤ n
+  · simp only [hn, if_true, Nat.toList_repr]
+    have := atoiC_nonneg n.toNat (by omega)
+    rw [this]; congr 1; omega
+  · simp only [hn, if_false, String.toList_append, Nat.toList_repr]
+    have e : "-".toList = ['-'] := rfl
+    rw [e, List.singleton_append]
+    have := atoiC_neg (-n).toNat (by omega)
+    rw [this]; congr 1; omega
+
+/-- IntConfig, unconditionally for every default in the int64 range -/
+theorem intConfig_spec_int64 (v : Option String) (d mn mx : Int) (h1 : -(2^63) ≤ d) (h2 : d ≤ 2^63 - 1) :
+    (intConfig v d mn mx).1 = specInt false v d mn mx := intConfig_spec v d mn mx (atoi_itoa d h1 h2)
+
+/-! ### boundary values, kernel-evaluated -/
+
 
 theorem atoi_itoa_samples :
     ∀ n ∈ ([0, 1, -1, 5, 10, 100, 1000, 50000, 2147483647, -2147483648, 9223372036854775807, -9223372036854775808] : List Int),
